@@ -793,9 +793,17 @@ func (analyser *BurndownAnalysis) mergeMatrices(
 
 	size := roundTime(commonMerged.EndTimeAsTime(), tickSize, true) -
 		roundTime(commonMerged.BeginTimeAsTime(), tickSize, false)
-	perTick := make([][]float32, size+granularity)
+	// rows are ticks of the samples, columns are ticks of the bands; both exploded inputs must fit
+	maxSampling, maxGranularity := sampling1, granularity1
+	if sampling2 > maxSampling {
+		maxSampling = sampling2
+	}
+	if granularity2 > maxGranularity {
+		maxGranularity = granularity2
+	}
+	perTick := make([][]float32, size+maxSampling)
 	for i := range perTick {
-		perTick[i] = make([]float32, size+sampling)
+		perTick[i] = make([]float32, size+maxGranularity)
 	}
 	if len(m1) > 0 {
 		addBurndownMatrix(m1, granularity1, sampling1, perTick,
